@@ -128,7 +128,7 @@ func runC15(c *core.Ctx) error {
 	if err != nil {
 		return err
 	}
-	lays := []model.Layout{{NL: "\n"}, {NL: "\n", Multi: 1, Quote: true}, {NL: "\r\n", Multi: 2, Comments: 1}, {NL: "\n", Comments: 2, TailBlank: 2}, {NL: "\r", Pad: 1}}
+	lays := []model.Layout{{NL: "\n"}, {NL: "\n", Multi: 1, Quote: 2}, {NL: "\r\n", Multi: 2, Comments: 1}, {NL: "\n", Comments: 2, TailBlank: 2}, {NL: "\r", Pad: 1}}
 	rng.Shuffle(len(ps), func(i, j int) { ps[i], ps[j] = ps[j], ps[i] })
 	for i, p := range ps {
 		if i >= c.Pick(700, 6000) {
